@@ -101,7 +101,7 @@ CHECKS["C11"] = dict(
 )
 
 CHECKS["C02"] = dict(
-    level_text="Differential monitor: the real init+verify is executed on every token sequence of <= L tokens over a 37-token alphabet holding every token kind, width boundary, "
+    level_text="Differential monitor: the real init+verify is executed on every token sequence of <= L tokens over a 38-token alphabet holding every token kind, width boundary, "
                "non-minimal/negative/overlong length and illegal type byte (exhaustive; both root kinds, max_depth 1..3, plus wrapping variants), on nesting ladders around both limits, "
                "on the 1791 corpus files at five depths, and on random valid documents, mutants and token soup; verdict and depth error code are compared with an independent recogniser.",
     technique="differential runtime monitor: verify vs independent recogniser; exhaustive token-sequence enumeration + ladders + corpus + mutation, ASan+UBSan",
@@ -113,7 +113,7 @@ CHECKS["C02"] = dict(
     exhaustive_note="all token sequences of <= L body tokens over the alphabet (L=4 quick, L=5 thorough) x {object,array} root x max_depth {1,2,3}",
     assumptions=["vrecognise (harness/vh.c) is the reading of the specification: root counts as level 1 for either root kind, array nesting counted per object level, <= 255",
                  "UTF-8 validity of strings is not part of the property"],
-    jobs=[dict(name="c02e", src=["w_verify.c", "vh.c"], build="gasan", mode="c02e", cases=(1926221, 71270178), opt=("4", "5"), require=["verify_accepted", "verify_rejected", "depth_first_obstacle"]),
+    jobs=[dict(name="c02e", src=["w_verify.c", "vh.c"], build="gasan", mode="c02e", cases=(2141491, 81376659), opt=("4", "5"), require=["verify_accepted", "verify_rejected", "depth_first_obstacle"]),
           dict(name="c02r", src=["w_verify.c", "vh.c"], build="gasan", mode="c02r", cases=(400000, 8000000), require=["accepted", "rejected", "corpus_runs", "ladder_batches", "depth_first_obstacle"])],
 )
 ENGINE_NOTES["w_verify.c"] = "verify vs independent recogniser: exhaustive token enumeration, nesting ladders, corpus, mutants (gcc ASan+UBSan)"
@@ -296,13 +296,16 @@ CHECKS["C18"] = dict(
                "to_string at cut capacities, captured print output, writer call lists at cut capacities, writer_verify/reset) and emits one digest per scenario; the digests must be identical under "
                "{gcc,clang} x {-O0,-O2,-Os} x {-fsigned-char,-funsigned-char} and under gcc/clang ASan+UBSan, which must also stay silent. On inequality the scenario is re-run under both builds and the "
                "full transcripts are diffed. Only x86-64 is available: word size and endianness are not varied.",
-    technique="cross-build differential monitor: per-scenario transcript digests compared across 14 build configurations incl. sanitizer builds",
+    technique="cross-build differential monitor: per-scenario transcript digests compared across 14 (C) + 8 (C++) build configurations incl. sanitizer builds",
     level_note=LVL_NOTE + " No 32-bit or ARM toolchain/emulator in this sandbox; -funsigned-char is the one Cortex-M trait reproduced.",
     title="Behaviour does not depend on compiler, optimisation level or char signedness",
     rule="one evaluation = one scenario executed under one build; non-trivial = every scenario; distinct = distinct transcript digests (identical across builds by the oracle, so this counts distinct scenarios)",
-    assumptions=["the harness itself uses only uint8_t/fixed-width types for data so that -funsigned-char cannot change its own behaviour", "the C++ wrapper's transcripts are covered by C15 under g++ and clang++"],
+    assumptions=["the harness itself uses only uint8_t/fixed-width types for data so that -funsigned-char cannot change its own behaviour and never draws two PRNG values in one expression",
+                 "the C++ wrapper has its own transcript group (serialize bytes, toStr text, outcome and re-serialisation of the three deserialize overloads) compared across 8 builds"],
     post="compare_transcripts",
-    jobs=[dict(name="xs_" + b, src=XS, build=b, mode="c18", cases=(40000, 1000000), require=["transcript_bytes", "documents_valid", "documents_invalid", "text_scenarios", "writer_scenarios"]) for b in _XSB],
+    jobs=[dict(name="xs_" + b, src=XS, build=b, mode="c18", group="c", cases=(40000, 1000000), require=["transcript_bytes", "documents_valid", "documents_invalid", "text_scenarios", "writer_scenarios"]) for b in _XSB]
+         + [dict(name="xscpp_" + b, src=["w_cpp.cpp", "vh.c"], lib=CPPLIB, build=b, mode="c18x", group="cpp", cases=(40000, 400000), require=["transcript_bytes", "cpp_scenarios"])
+            for b in ["gccO2s", "gccO0u", "gccOsu", "clangO0s", "clangO2u", "clangOss", "gasan", "casan"]],
 )
 
 FOOT = ["w_foot.c", "vh.c"]
